@@ -6,6 +6,7 @@ import (
 	"os"
 	"path/filepath"
 	"runtime"
+	"runtime/pprof"
 	"strconv"
 	"strings"
 	"time"
@@ -42,6 +43,34 @@ func main() {
 	if len(os.Args) < 2 {
 		usage()
 	}
+	if pf := os.Getenv("VERIF_CPUPROFILE"); pf != "" {
+		f, _ := os.Create(pf)
+		pprof.StartCPUProfile(f)
+		defer pprof.StopCPUProfile()
+	}
+	code := 64
+	switch os.Args[1] {
+	case "run":
+		code = cmdRun(os.Args[2:])
+	case "explore":
+		code = cmdExplore(os.Args[2:])
+	case "replay":
+		code = cmdReplay(os.Args[2:])
+	case "selftest":
+		code = cmdSelftest(os.Args[2:])
+	default:
+		usage()
+	}
+	pprof.StopCPUProfile()
+	if pf := os.Getenv("VERIF_HEAPPROFILE"); pf != "" {
+		f, _ := os.Create(pf)
+		pprof.WriteHeapProfile(f)
+		f.Close()
+	}
+	os.Exit(code)
+}
+
+func oldSwitch() {
 	switch os.Args[1] {
 	case "run":
 		os.Exit(cmdRun(os.Args[2:]))
